@@ -124,14 +124,26 @@ def parse_svc_simple(toks):
     return C.Service(sid, iid, maj, mi, eventgroups=egs), toks[8 + k:]
 
 
+class _UniformDispatch:
+    def __init__(self, orig):
+        self.orig = orig
+        self.stack = None
+
+    def __call__(self, a, b):
+        return self.stack._uniform(a, b) if self.stack is not None and not self.stack.closed else self.orig(a, b)
+
+
 class ImplStack:
-    def __init__(self, tm: TimingsSpec, services):
+    def __init__(self, tm: TimingsSpec, services, my_addr=None):
+        self.my_addr = my_addr
         self.loop = vloop.new_loop()
         self.outs = []
         self.sent = []
         self.draws = []
-        self._saved_uniform = _random.uniform
-        _random.uniform = self._uniform
+        # several stacks may be alive at once (C04): random.uniform dispatches to the stack whose code is running
+        if not isinstance(_random.uniform, _UniformDispatch):
+            _random.uniform = _UniformDispatch(_random.uniform)
+        _random.uniform.stack = self
         self.tm = tm
         impl_tm = tm.to_impl()
         self.p = self.loop.call(SD.ServiceDiscoveryProtocol, MC, impl_tm)
@@ -151,7 +163,8 @@ class ImplStack:
         self.p.announcer.queue_send = queue_send
 
     def close(self):
-        _random.uniform = self._saved_uniform
+        if isinstance(_random.uniform, _UniformDispatch) and _random.uniform.stack is self:
+            _random.uniform = _random.uniform.orig
         self.closed = True
         self.loop.shutdown()
 
@@ -234,6 +247,11 @@ class ImplStack:
 
     def apply(self, line: str) -> str:
         """line: 'in <input>' | 'run' | 'fire q' | 'adv t'"""
+        if isinstance(_random.uniform, _UniformDispatch):
+            _random.uniform.stack = self
+        else:
+            _random.uniform = _UniformDispatch(_random.uniform)
+            _random.uniform.stack = self
         toks = line.split()
         n0 = len(self.outs)
         kind = toks[0]
